@@ -1575,6 +1575,26 @@ func (f *DeduplicateAggregatorFunction) New() AggregatorFunction {
 	}
 }
 
+// Init implements ParameterizedFunction for the two-argument form deduplicate(col, flag).
+// The optional flag must be a boolean; the distinct values of the group are returned either way.
+func (f *DeduplicateAggregatorFunction) Init(args []any) error {
+	if len(args) > 2 {
+		return fmt.Errorf("deduplicate accepts (field[, flag]); got %v", args)
+	}
+	if len(args) == 2 {
+		switch flag := args[1].(type) {
+		case bool:
+		case string:
+			if lower := strings.ToLower(flag); lower != "true" && lower != "false" {
+				return fmt.Errorf("deduplicate flag must be true or false, got %v", flag)
+			}
+		default:
+			return fmt.Errorf("deduplicate flag must be true or false, got %T (%v)", args[1], args[1])
+		}
+	}
+	return nil
+}
+
 func (f *DeduplicateAggregatorFunction) Add(value any) {
 	key := fmt.Sprintf("%v", value)
 	if !f.seen[key] {
